@@ -120,7 +120,7 @@ def run_case(case):
 
 @st.composite
 def cases(draw):
-    base = draw(cfggen.base_config(nmin=16, nmax=48, min_laststep=10, max_laststep=40, big=24, via_rev=6))
+    base = draw(cfggen.base_config(nmin=16, nmax=48, min_laststep=10, max_laststep=40, big=24, via_rev=6, machine=4))
     # deterministic RF includes a configured phase modulation (no noise); long runs (> 1024 steps) with sparse output reach
     # whatever is buffered, chunked or flushed per output block (round-3 seed C12c: modulation table refilled per 1024 steps)
     mode = draw(st.sampled_from(["plain"] * 6 + ["rfmod_short", "rfmod_long", "rfmod_long", "long"]))
@@ -156,4 +156,4 @@ def cases(draw):
 
 
 def subs(tier):
-    return [Sub("family", cases(), run_case, quick=640, thorough=6000, needs=("rel", "h5x"), shrink_budget=40)]
+    return [Sub("family", cases(), run_case, quick=512, thorough=6000, needs=("rel", "h5x"), shrink_budget=40)]
